@@ -3,7 +3,7 @@
 from __future__ import annotations
 
 from .. import core
-from ._store_machine import StoreMachine
+from ._store_machine import StoreMachine, plan_strategy, replay_any, run_plan
 
 SHARDED = True
 
@@ -33,8 +33,9 @@ def run(ctx: core.Ctx):
     )
     ctx.assumptions = ['ids are unique per store and across merged inputs; the int64 fill value is not used as an id',
                        'lookup in a never-saved in-memory store is not claimed (no index exists yet): any non-wrong outcome accepted']
-    core.run_machine(ctx, C08Machine, max_examples=ctx.n(100, 400), steps=40)
+    core.run_machine(ctx, C08Machine, max_examples=ctx.n(30, 250), steps=40)
+    core.run_given(ctx, plan_strategy(lookups=True, faults=True), lambda p: run_plan(C08Machine, ctx, p), ctx.n(50, 300), salt=20)
 
 
 def replay(ctx: core.Ctx, case):
-    core.replay_machine(C08Machine, ctx, case)
+    replay_any(C08Machine, ctx, case)
